@@ -6,6 +6,7 @@ import ast
 from ..astutil import attr_path, call_name, walk, src, enclosing_func
 from ..bytelayout import Layouter, ListVal, flatten, show
 from ..consteval import UNKNOWN, ClassRef
+from ..astutil import clone as _clone
 from ..framework import rule
 from ..guards import branch_outcome
 from ..linexpr import Lin, atom_name, cmp_norm, lin
@@ -435,7 +436,7 @@ def d2_9(ctx):
             for v in sorted({-1, 0, 1, 8 * k - 1, 8 * k, 8 * k + 1, 31, 32, 63, 64, 70}):
                 ok = True
                 for t, br in conds:
-                    r = ctx.folder.eval(Sub(k).visit(copy.deepcopy(t.ast)), rmw.module, env={bitp: v})
+                    r = ctx.folder.eval(Sub(k).visit(_clone(t.ast)), rmw.module, env={bitp: v})
                     if r is UNKNOWN:
                         ok = None
                         break
